@@ -49,6 +49,9 @@ def prog_reductions(sc, keys=("prog", "prog2")):
             for attr in ("defaults", "ranges", "selects", "implies", "sets", "depends"):
                 if it.get(attr):
                     for j in range(len(it[attr])):
+                        if attr == "defaults" and it.get("type") in ("int", "hex", "float") and it[attr][j][1] is None and \
+                                sum(1 for d in it[attr] if d[1] is None) == 1:
+                            continue  # every numeric option keeps its fallback default (the quantifiers require one)
                         c = copy.deepcopy(sc)
                         cc, ii = _get(c[key]["items"], path)
                         del cc[ii][attr][j]
